@@ -20,7 +20,7 @@ LEVEL_TEXT = ('Held on every explored schedule: the real Rejection/SMC samplers 
               'no use of cancelled results, empty task table at return and byte-equality with the sequential run are checked on each. '
               'Schedules are sampled, not enumerated; evidence reports distinct interleavings observed.')
 LEVEL_NOTE = 'trusts: the scheduled client models only behaviours a ClientBase implementation may exhibit (monotone readiness; unexecuted task never ready); compat layer; dask/ipyparallel clients not driven'
-RULE = ('cases = inference-model spec x sampler (Rejection threshold|quantile|n_sim; SMC 2-4 rounds with threshold lists | quantile lists, optional '
+RULE = ('cases = inference-model spec x sampler (Rejection threshold|quantile|n_sim; SMC 2-4 rounds with threshold lists | quantile lists, AdaptiveDistanceSMC 2-3 rounds, optional '
         'continued sampling) x batch_size x n_samples x seed, each run under 3 scheduled clients (regime x schedule seed x cores 1-8 x '
         'max_parallel_batches 1-8) and sometimes the real multiprocessing client; distinct = hash of the case; non-trivial = some schedule of the '
         'case produced an event sequence that differs from the lazy sequential one (a not-ready answer, out-of-order execution or a cancellation)')
@@ -30,7 +30,7 @@ CONFIG = {
     'quick': {'shards': 16, 'cases': 5, 'timeout': 900, 'floor': 30, 'mp_every': 5},
     'thorough': {'shards': 32, 'cases': 210, 'timeout': 5400, 'floor': 2400, 'mp_every': 35},
 }
-REQUIRED = ['cases_with_progress_bar', 'scheduled_runs', 'runs_with_cancellation', 'runs_with_out_of_order_exec', 'runs_with_not_ready',
+REQUIRED = ['sampler_adsmc', 'cases_with_progress_bar', 'scheduled_runs', 'runs_with_cancellation', 'runs_with_out_of_order_exec', 'runs_with_not_ready',
             'sampler_rej', 'sampler_smc', 'updates_checked', 'distinct_interleaving', 'mp_runs']
 
 
@@ -45,7 +45,7 @@ def gen_cases(ctx):
     made = 0
     while made < ctx.ncases:
         spec = models.gen_spec(rng, flavours=('cont', 'quant', 'inf'))
-        sampler = str(rng.choice(['rej', 'smc']))
+        sampler = str(rng.choice(['rej', 'smc', 'smc', 'adsmc']))
         bs = int(rng.choice([1, 3, 10, 25]))
         n = int(rng.choice([5, 12, 30]))
         seed = int(rng.integers(0, 2 ** 31 - 1))
@@ -63,6 +63,9 @@ def gen_cases(ctx):
                 kw = {'quantile': float(rng.choice([0.1, 0.3]))}
             else:
                 kw = {'n_sim': int(n * rng.integers(1, 7) + rng.integers(0, 4))}
+        elif sampler == 'adsmc':
+            kw = {'rounds': int(rng.integers(2, 4)), 'quantile': float(rng.choice([0.5, 0.7]))}
+            spec['disc']['flavour'] = 'cont'
         else:
             rounds = int(rng.integers(2, 5))
             if rng.random() < 0.5:
@@ -91,6 +94,9 @@ def _run(client, case, mpb, delays=None):
     hist = []
     if case['sampler'] == 'rej':
         smp = elfi.Rejection(m['d'], batch_size=case['bs'], seed=case['seed'], max_parallel_batches=mpb)
+    elif case['sampler'] == 'adsmc':
+        m['d'].become(elfi.AdaptiveDistance(*[m[s_['name']] for s_ in case['spec']['summaries']], model=m))
+        smp = elfi.AdaptiveDistanceSMC(m['d'], batch_size=case['bs'], seed=case['seed'], max_parallel_batches=mpb)
     else:
         smp = elfi.SMC(m['d'], batch_size=case['bs'], seed=case['seed'], max_parallel_batches=mpb)
     upd = smp.update
